@@ -225,6 +225,9 @@ func c18Ops(thorough bool) []c18Op {
 			c18Op{Name: "PutBucketAcl", Req: func(map[string]string) *gw.Req {
 				return NewReq("PUT", "/"+c18B, "acl", H("x-amz-grant-read", "usr2"), nil)
 			}},
+			c18Op{Name: "PutBucketAcl public-read-write", Req: func(map[string]string) *gw.Req {
+				return NewReq("PUT", "/"+c18B, "acl", H("x-amz-acl", "public-read-write"), nil)
+			}},
 			c18Op{Name: "PutBucketOwnershipControls", Req: func(map[string]string) *gw.Req {
 				return NewReq("PUT", "/"+c18B, "ownershipControls", nil, []byte("<OwnershipControls><Rule><ObjectOwnership>BucketOwnerPreferred</ObjectOwnership></Rule></OwnershipControls>"))
 			}},
@@ -381,7 +384,7 @@ func C18(r *ck.Run) {
 	if r.Thorough() {
 		depth = 3
 	}
-	r.Rule(fmt.Sprintf("every program of length <= %d over 23 (26 thorough) bucket, object, tagging, policy, listing and multipart operations (three of them signed with a wrong secret) is executed twice from an empty store: through a gateway whose backend is s3proxy pointed at an endpoint process (a posix versitygw on loopback TCP), and against that endpoint directly; after every step 20 read requests (GET whole / ranges, HEAD, attributes, tagging, listings v1/v2 with prefix / delimiter / max-keys, uploads, parts, bucket tagging / policy / ACL / versioning) are issued on both sides and every response (status, error code, content headers, user metadata, ETag, body with timestamps and ids masked) must be equal; callers: root and a userplus account that owns the bucket; distinct = (caller, program)", depth))
+	r.Rule(fmt.Sprintf("every program of length <= %d over 23 (27 thorough) bucket, object, tagging, policy, listing and multipart operations (three of them signed with a wrong secret) is executed twice from an empty store: through a gateway whose backend is s3proxy pointed at an endpoint process (a posix versitygw on loopback TCP), and against that endpoint directly; after every step 20 read requests (GET whole / ranges, HEAD, attributes, tagging, listings v1/v2 with prefix / delimiter / max-keys, uploads, parts, bucket tagging / policy / ACL / versioning) are issued on both sides and every response (status, error code, content headers, user metadata, ETag, body with timestamps and ids masked) must be equal; callers: root and a userplus account that owns the bucket; distinct = (caller, program)", depth))
 	r.Assume("the 'other S3 endpoint' is versitygw itself (posix backend) in a child process; error documents are compared by status and code only")
 	ops := c18Ops(r.Thorough())
 	var progs [][]int
